@@ -151,15 +151,15 @@ void ApiRun::verify_roundtrip(int ci, int version, const Op &o) {
     (void) r.chance(1, 2);   // (short writes are not injected: glibc never shows them to fwrite callers on real files, and does not retry them on cookie streams)
     bool wfault = o.fault_kind == 20;
     if (wfault) { out.err_at = o.fault_at; g_stats.inc("fault.stream_write_err.configured"); }
-    FILE *f = out.open();
-    (void) r.chance(1, 3);
     struct cif_write_opts_s *wo = NULL;
     int rc0 = CALL("cif_write_options_create", (wo = NULL, cif_write_options_create(&wo)));
     expect_rc("cif_write_options_create", rc0, {CIF_OK});
     wo->cif_version = version == 1 ? 1 : (r.chance(1, 2) ? 2 : 0);
-    int rc = CALLN("cif_write", cif_write(f, r.chance(1, 4) && version != 1 ? NULL : wo, c.cif));
+    bool null_opts = r.chance(1, 4) && version != 1;
+    int ferr = 0;
+    // each attempt (there is more than one only under allocation-failure enumeration) writes to a freshly opened stream
+    int rc = api("cif_write", [&]() { FILE *f = out.open(); int q = cif_write(f, null_opts ? NULL : wo, c.cif); fflush(f); ferr = ferror(f); fclose(f); return q; });
     lib_free(wo);
-    fflush(f); int ferr = ferror(f); fclose(f);
     cover(O_Checkpoint, rc, (uint64_t) version * 16 + (causes.composite ? 1 : 0) + (causes.nl_semi ? 2 : 0) + (causes.non11 ? 4 : 0) + (wfault ? 8 : 0));
     ev("cif_write(v%d) -> %s, %zu bytes, ferror=%d", version, rc_name(rc), out.data.size(), ferr);
     if (g_log.keep_text) {   // for humans reading a replay trace; not part of the fingerprint-relevant decisions
@@ -205,8 +205,9 @@ void ApiRun::verify_roundtrip(int ci, int version, const Op &o) {
     po->max_frame_depth = has_nested_frames(c.model) ? -1 : (has_frames(c.model) ? 1 : (int) r.range(0, 1));
     if (version == 1) { po->prefer_cif2 = -1; po->line_folding_modifier = 1; po->text_prefixing_modifier = 1; }
     cif_tp *fresh = NULL;
-    int rc2 = CALLN("cif_parse", cif_parse(fi, po, &fresh));
-    fclose(fi); lib_free(po);
+    fclose(fi);
+    int rc2 = api("cif_parse", [&]() { if (fresh) { int q = cif_destroy(fresh); (void) q; fresh = NULL; } er = ErrRec(); FILE *fj = in.open(); int q = cif_parse(fj, po, &fresh); fclose(fj); return q; });
+    lib_free(po);
     std::unique_ptr<Violation> bad;
     try {
         if (rc2 != CIF_OK || !er.codes.empty()) violate("reparse", strprintf("cif_parse:%s:%s", rc_name(rc2), er.codes.empty() ? "-" : rc_name(er.codes[0])), strprintf("re-parsing the output of cif_write gives %s with %zu error(s), first %s at line %zu", rc_name(rc2), er.codes.size(), er.codes.empty() ? "-" : rc_name(er.codes[0]), er.lines.empty() ? 0 : er.lines[0]));
